@@ -58,7 +58,23 @@ func VerifC14_Update() {
 		d.Environment = types.Environment{"D=" + v}
 		return d
 	}
-	old := vLoadedProject(types.Processes{"a": mkA(), "b": vBaseProc("run b"), "k": vBaseProc("keep"), "d": mkD("1")})
+	// r restarts for ever (back-off 5 s); when the update arrives its command has just died and
+	// it is waiting out the back-off. The update changes it, removes it, or r does not exist.
+	rMode := []string{"absent", "changed.in.back-off", "removed.in.back-off"}[verifChooseK("r", 3)]
+	mkR := func(v string) types.ProcessConfig {
+		rc := vBaseProc("run r")
+		rc.ReadinessProbe, rc.LivenessProbe = nil, nil
+		rc.Environment = types.Environment{"R=" + v}
+		rc.RestartPolicy = types.RestartPolicyConfig{Restart: types.RestartPolicyAlways, BackoffSeconds: 5}
+		return rc
+	}
+	oldProcs := types.Processes{"a": mkA(), "b": vBaseProc("run b"), "k": vBaseProc("keep"), "d": mkD("1")}
+	if rMode != "absent" {
+		verifShape("r:" + rMode)
+		oldProcs["r"] = mkR("1")
+		w.behav["r"] = &vBehav{untilStop: []bool{true}, codes: []int{1}}
+	}
+	old := vLoadedProject(oldProcs)
 	r := vRunner(old, false)
 	runDone := make(chan error, 1)
 	go func() { runDone <- r.Run() }()
@@ -105,6 +121,14 @@ func VerifC14_Update() {
 		// k must have completed for a to be relaunched: let it be a process that exits
 		w.behav["k"] = &vBehav{untilStop: []bool{true}}
 	}
+	if rMode == "changed.in.back-off" {
+		procs["r"] = mkR("2")
+	}
+	if rMode != "absent" {
+		vCrash("r") // its command dies by itself ...
+		verifSettle() // ... and it waits out its back-off: this is when the update arrives
+		verifAssert("r.in.back-off", vGet(w.alive, "r") == 0 && vGet(w.starts, "r") == 1)
+	}
 	np := vLoadedProject(procs)
 	startsA, startsK, startsB := vGet(w.starts, "a"), vGet(w.starts, "k"), vGet(w.starts, "b")
 	status, err := r.UpdateProject(np) // REAL code
@@ -127,6 +151,16 @@ func VerifC14_Update() {
 	}
 	if dChanged {
 		want["d"] = types.ProcessUpdateUpdated
+	}
+	switch rMode {
+	case "changed.in.back-off":
+		want["r"] = types.ProcessUpdateUpdated
+		// (the update has settled and the old back-off would have elapsed by now)
+		env := w.startEnv["r"]
+		verifAssert("r.relaunched.once.with.the.new.configuration", vGet(w.starts, "r") == 2 && vGet(w.alive, "r") == 1 && len(env) > 0 && env[len(env)-1] == "R=2")
+	case "removed.in.back-off":
+		want["r"] = types.ProcessUpdateRemoved
+		verifAssert("removed.process.never.relaunched", vGet(w.starts, "r") == 1 && vGet(w.alive, "r") == 0)
 	}
 	var got, exp []string
 	for k, v := range status {
